@@ -25,51 +25,7 @@ func memFromDump(d map[string][]byte) dbm.DB {
 }
 
 // writePhase names the logical phase a counted write belongs to.
-func writePhase(logEntry string) string {
-	kind := logEntry
-	key := ""
-	if i := strings.Index(logEntry, ":"); i >= 0 {
-		kind, key = logEntry[:i], logEntry[i+1:]
-	}
-	if strings.HasPrefix(kind, "batch") {
-		kind = "batch"
-	}
-	cls := "other"
-	switch {
-	case strings.HasPrefix(key, `"\x01`):
-		cls = "stateTree"
-		if len(key) > 6 && key[5] != '\\' {
-			cls = "statePrefixKey"
-		}
-	case strings.HasPrefix(key, `"\x02`):
-		cls = "identityTree"
-	case strings.HasPrefix(key, `"\x03`):
-		cls = "preliminaryIdentityTree"
-	case strings.HasPrefix(key, `"LastBlock`):
-		cls = "head"
-	case strings.HasPrefix(key, `"id-diff`):
-		cls = "identityDiff"
-	case strings.HasPrefix(key, `"ti`):
-		cls = "txIndex"
-	case strings.HasPrefix(key, `"ri`):
-		cls = "receiptIndex"
-	case strings.HasPrefix(key, `"oti`):
-		cls = "ownTxIndex"
-	case strings.HasPrefix(key, `"bc`):
-		cls = "burntCoins"
-	case strings.HasPrefix(key, `"h`):
-		cls = "header-or-canonical"
-	case strings.HasPrefix(key, `"c`):
-		cls = "certificate"
-	case strings.HasPrefix(key, `"weak`):
-		cls = "weakCerts"
-	case strings.HasPrefix(key, `"last-snap`):
-		cls = "snapshotManifest"
-	case strings.HasPrefix(key, `"e`):
-		cls = "events"
-	}
-	return kind + ":" + cls
-}
+func writePhase(logEntry string) string { return WriteClass(logEntry) }
 
 type c09ref struct {
 	head   string
@@ -504,13 +460,23 @@ func fastSyncCrash(w *World, rep *verifutil.Report, r *verifutil.Rng, sc int) {
 		rep.Note("fast sync header phase failed: %v", err)
 		return
 	}
+	// AtomicSwitchToPreliminary empties the two replaced databases in a goroutine of its own: its
+	// deletes are writes a crash can fall on as well (CrashDB.Background), and the run is over when
+	// both old prefixes are empty
+	cdb.Background = true
+	idp, _ := state.IdentityStateDbKeys.LoadDbPrefix(cdb, false)
+	stp, _ := state.StateDbKeys.LoadDbPrefix(cdb)
 	cdb.Arm(0)
 	if err := run.Finish(); err != nil {
 		rep.Note("fast sync finish failed on the reference: %v", err)
 		return
 	}
-	n := cdb.Writes
-	wlog := append([]string{}, cdb.Log...)
+	if !cdb.WaitEmptied(idp, stp) {
+		rep.Note("fast sync finish: the replaced databases were not emptied in time")
+		return
+	}
+	n, _ := cdb.Count()
+	wlog, _ := cdb.Snapshot()
 	cdb.Disarm()
 	var feed []*types.Block
 	for _, b := range w.Blocks {
@@ -526,7 +492,18 @@ func fastSyncCrash(w *World, rep *verifutil.Report, r *verifutil.Rng, sc int) {
 	}
 	refv := c09ref{head: run.S.Head().Hash().Hex(), digest: DigestState(run.S.AppState)}
 	rep.Max("max_writes_in_fast_sync_finish", n)
-	for _, k := range crashPoints(n, r, verifutil.Thorough()) {
+	// every write up to the switch and the first deletes of the clean-up, sampled ones of the rest
+	points := crashPoints(n, r, verifutil.Thorough())
+	have := map[int]bool{}
+	for _, k := range points {
+		have[k] = true
+	}
+	for k := 1; k <= 8 && k <= n; k++ {
+		if !have[k] {
+			points = append(points, k)
+		}
+	}
+	for _, k := range points {
 		phase := writePhase(wlog[k-1])
 		rep.Progress("C09 scenario %d: fast sync finish crash at write %d/%d (%s)", sc, k, n, phase)
 		cdb := NewCrashDB(dbm.NewMemDB())
@@ -534,8 +511,16 @@ func fastSyncCrash(w *World, rep *verifutil.Report, r *verifutil.Rng, sc int) {
 		if err != nil {
 			continue
 		}
+		cdb.Background = true
 		cdb.Arm(k)
-		crashed, other := cdb.RunToCrash(func() { run.Finish() })
+		crashed, other := cdb.RunToCrash(func() {
+			if run.Finish() == nil {
+				cdb.WaitEmptied(idp, stp)
+			}
+		})
+		if _, c := cdb.Count(); c {
+			crashed = true
+		}
 		if other != nil || !crashed {
 			continue
 		}
